@@ -113,6 +113,15 @@ def main():
             p for p, v in meta["steps"]["checks"].items() if v["exit"] == 1)
     finally:
         shutil.rmtree(root, ignore_errors=True)
+    notes = os.path.join(seed, "notes.md")
+    if os.path.exists(notes):
+        with open(notes) as f:
+            meta["needs_to_manifest"] = f.read().strip()[:1500]
+    meta["ran"] = ("tools/seed_eval.py: demo on unchanged copy; git apply "
+                   "patch.diff to a scratch copy of /repo; demo on patched "
+                   "copy; repository test suite on patched copy; ./check %s "
+                   "--tier %s with ZCSIM_REPO=<patched copy>" % (a.prop,
+                                                                a.tier))
     print(json.dumps(meta, indent=1))
     if a.keep:
         dst = os.path.join(VERIF, "seeded", a.keep)
